@@ -52,9 +52,13 @@ def _run_side(arg):
     spec, candles, monitors_factory = arg
     fc = {s: np.array(a, dtype=np.float64) for s, a in candles.items()}
     c, out = R.execute_session(spec, fc, monitors_factory())
+    trades = []
+    for t in ((out.get('result') or {}).get('trades') or []):
+        trades.append(tuple(C.fnum(t.get(k)) if isinstance(t.get(k), (int, float, np.floating, np.integer)) and not isinstance(t.get(k), bool) else str(t.get(k))
+                            for k in ('symbol', 'type', 'qty', 'entry_price', 'exit_price', 'opened_at', 'closed_at', 'fee', 'PNL')))
     return {'trace': c.trace, 'status': out['status'], 'exc': out.get('exc'), 'where': out.get('where'),
             'exc_type': out.get('exc_type'), 'counters': dict(c.counters), 'events': len(c.trace),
-            'metrics': R.jsonable((out.get('result') or {}).get('metrics')), 'tb': out.get('tb')}
+            'metrics': R.jsonable((out.get('result') or {}).get('metrics')), 'tb': out.get('tb'), 'trades': trades}
 
 
 def run_side(spec, fc, monitors_factory):
@@ -343,6 +347,21 @@ class SchedulerSwapCheck(BaseCheck):
                                           'detail': {'index': d, 'normal': R.jsonable(a), 'fast': R.jsonable(b), 'n': [len(fn), len(ff)]},
                                           'seq': d, 'horizon': -1})
             else:
+                # "the same closed trades": side, size, entry and exit price, open and close time, fee and PnL
+                tn, tfz = N.get('trades') or [], F.get('trades') or []
+                cnt['closed_trades_compared'] = len(tn)
+                dt = first_diff(tn, tfz)
+                if dt is not None:
+                    a = tn[dt] if dt < len(tn) else None
+                    b = tfz[dt] if dt < len(tfz) else None
+                    what = 'count'
+                    if a is not None and b is not None:
+                        names = ('symbol', 'type', 'qty', 'entry_price', 'exit_price', 'opened_at', 'closed_at', 'fee', 'pnl')
+                        what = next((names[i] for i in range(len(names)) if a[i] != b[i]), '?')
+                    res['violations'].append({'property': 'C12', 'clause': 'closed-trades-differ',
+                                              'fingerprint': f"C12|closed-trades-differ|field={what}|type={spec['type']}",
+                                              'detail': {'index': dt, 'normal': R.jsonable(a), 'fast': R.jsonable(b), 'n': [len(tn), len(tfz)]},
+                                              'seq': dt, 'horizon': -1})
                 mn, mf = N.get('metrics') or {}, F.get('metrics') or {}
                 for k in ('total', 'finishing_balance', 'net_profit', 'fee', 'total_winning_trades', 'longs_count'):
                     a, b = mn.get(k), mf.get(k)
